@@ -5,6 +5,7 @@ package yubiattest
 //vsym:model (*math/big.Int).SetBytes m06SetBytes
 //vsym:model (*math/big.Int).Exp m06Exp
 //vsym:model (*math/big.Int).Bytes m06Bytes
+//vsym:model (*math/big.Int).FillBytes m06FillBytes
 //vsym:model (*math/big.Int).BitLen m06BitLen
 //vsym:model math/big.NewInt m06NewInt
 //vsym:expect-cover C06.em.accept C06.em.reject C06.em.accept-with-null C06.em.accept-without-null
@@ -33,6 +34,18 @@ func m06Bytes(x *big.Int) []byte {
 	copy(out, m06EM)
 	return out
 }
+// FillBytes: the same value written big-endian into the caller's buffer, zero-extended
+func m06FillBytes(x *big.Int, buf []byte) []byte {
+	for i := range buf {
+		buf[i] = 0
+	}
+	if len(buf) < len(m06EM) {
+		panic("math/big: buffer too small to fit value")
+	}
+	copy(buf[len(buf)-len(m06EM):], m06EM)
+	return buf
+}
+
 var m06Slack int // the modulus has 8k - slack bits
 
 func m06BitLen(x *big.Int) int { return m06K*8 - m06Slack }
